@@ -32,6 +32,7 @@ class Ob:
     bounds: dict = field(default_factory=dict)   # stated bounds (text/values) for evidence
     goals: tuple = ()              # coverage goals that must be reachable (vacuity guard)
     split: tuple = ()              # ((varname, (values...)), ...) -> independent sub-trees
+    hash_seeds: tuple = ()         # concrete supplement: witnesses are re-run under these PYTHONHASHSEED values, traces must agree
     budget_s: float = 600.0        # wall budget per sub-tree
     per_path_timeout: float = 30.0
     kind: str = "symx"             # "symx" | "direct" (func(ob) -> stats dict itself)
@@ -114,7 +115,7 @@ def load_known(prop):
     return [f for f in data.get("findings", []) if f.get("property") == prop]
 
 
-def replay_file(path, profile=False, tolerate=()):
+def replay_file(path, profile=False, tolerate=(), hashseed=None):
     """run a replay file in a fresh interpreter; returns the result dict or None"""
     cmd = [PY, os.path.join(VERIF, "check"), "--replay-internal", path]
     if profile:
@@ -122,7 +123,7 @@ def replay_file(path, profile=False, tolerate=()):
     if tolerate:
         cmd += ["--tolerate", ",".join(tolerate)]
     env = dict(os.environ)
-    env["PYTHONHASHSEED"] = env.get("PYTHONHASHSEED", "0")
+    env["PYTHONHASHSEED"] = str(hashseed) if hashseed is not None else env.get("PYTHONHASHSEED", "0")
     try:
         out = subprocess.run(cmd, capture_output=True, text=True, timeout=600, env=env, cwd=VERIF)
     except subprocess.TimeoutExpired:
@@ -302,6 +303,41 @@ def run_property(prop, obligations, tier, seed=0, workers=None, assumptions=(), 
                     r2.pop("functions", None)
                     harness_errors.append("%s: no witness for goal %r replays concretely (%d candidates): %s" % (
                         ob.name, g, len(lst), json.dumps(r2)[:900]))
+            # concrete supplement (hash randomisation is not a solver variable): the first good witness of every goal is
+            # re-run in fresh interpreters under other PYTHONHASHSEED values; the event traces must be identical
+            if ob.hash_seeds:
+                hs_jobs = []
+                for g, lst in by_goal.items():
+                    good = [x for x in lst if x[0]]
+                    if good:
+                        _, ci, res0 = good[0]
+                        wpath = [pth for (k_, o_, (g_, c_)), (pth, r_) in replayed.items() if k_ == "witness" and o_ == ob.name and g_ == g and c_ == ci][0]
+                        for hs in ob.hash_seeds:
+                            hs_jobs.append((g, ci, hs, wpath, res0))
+                with ThreadPoolExecutor(max_workers=workers) as tp:
+                    hs_res = [(j, tp.submit(replay_file, j[3], False, tolerate, j[2])) for j in hs_jobs]
+                    hs_res = [(j, f.result()) for j, f in hs_res]
+                n_cmp = 0
+                for (g, ci, hs, wpath, res0), r in hs_res:
+                    if r is None or r.get("outcome") == "error":
+                        harness_errors.append("%s: witness replay under PYTHONHASHSEED=%s failed: %s" % (ob.name, hs, json.dumps(r)[:300]))
+                        continue
+                    n_cmp += 1
+                    if r.get("trace") != res0.get("trace") or r.get("outcome") != res0.get("outcome"):
+                        diff = [(a, b) for a, b in zip(res0.get("trace", []), r.get("trace", [])) if a != b][:1]
+                        code = prop + ".hash-seed-dependence"
+                        if any(v[1] == code and v[0] == ob.name for v in violations):
+                            continue
+                        body = json.load(open(wpath))
+                        body.update(kind="cex", code=code, hash_seeds=[0, hs])
+                        os.makedirs(REPLAYS, exist_ok=True)
+                        cpath = os.path.join(REPLAYS, "%s-cex-hash-%s" % (prop, os.path.basename(wpath).split("-")[-1]))
+                        json.dump(body, open(cpath, "w"), indent=1, sort_keys=True, default=str)
+                        msg = "same inputs, PYTHONHASHSEED 0 vs %s: traces differ, first difference %s" % (hs, diff)
+                        violations.append((ob.name, code, cpath, msg))
+                        rec["violations"].append(dict(code=code, replay=os.path.relpath(cpath, VERIF), msg=msg))
+                rec["hash_seed_comparisons"] = n_cmp
+                validated += n_cmp
             for g in ob.goals:
                 if g in d["goals_seen"] and not goals.get(g) and exhausted and not fails:
                     harness_errors.append("%s: goal %r only reached on paths inside a round-off tolerance band (no robust witness)" % (ob.name, g))
